@@ -239,11 +239,9 @@ Definition lin_poly (eps : string) (s : dirmap) (e : texpr) : option texpr :=
   then Some (poly_texpr tb (eps_coeff1 (map (texpr_eqb (eps_atom eps)) tb) (expand tb e1)))
   else None.
 
-Definition lin_integrand (eps : string) (s : dirmap) (e : texpr) : option texpr :=
-  match lin_poly eps s e with
-  | Some r => Some r
-  | None => lin_series eps s e
-  end.
+(* linearize (since f6a20ce): dg_du = g1.diff(eps).subs(eps, 0) -- the derivative arm only.  [lin_poly] (expansion and
+   eps^1 coefficient, what the series-based code computed on polynomials) is kept as a proved-equal alternative. *)
+Definition lin_integrand (eps : string) (s : dirmap) (e : texpr) : option texpr := lin_series eps s e.
 
 (* "if dg_du:" - the expression is not the zero expression (after expansion) *)
 Definition is_zero_expr (t : texpr) : bool := pzero (expand (table t) t).
@@ -252,8 +250,8 @@ Definition region := nat.                          (* 0 = domain, 1 = boundary, 
 Definition form := list (region * texpr).
 
 Inductive lin_result :=
-| LOk (f : form)                (* the bilinear expression: one integrand per surviving integral *)
-| LEmptyReduce                  (* reduce(add, []) : TypeError *)
+| LOk (f : form)                (* the bilinear expression: one integrand per surviving integral; [] = the zero form *)
+| LEmptyReduce                  (* reduce(add, []) : TypeError -- only in the code before 910ffef *)
 | LUnsupported.                 (* outside the model *)
 
 Fixpoint lin_parts (eps : string) (s : dirmap) (f : form) : option form :=
@@ -266,16 +264,34 @@ Fixpoint lin_parts (eps : string) (s : dirmap) (f : form) : option form :=
       end
   end.
 
+(* reduce(add, new_integrals, S.Zero); BilinearForm(..., 0) is the number 0 = the zero form (since 910ffef) *)
 Definition model_linearize (eps : string) (s : dirmap) (f : form) : lin_result :=
+  match lin_parts eps s f with
+  | None => LUnsupported
+  | Some parts => LOk parts
+  end.
+
+(* the code before 910ffef: reduce(add, new_integrals) without initial value *)
+Definition model_linearize_before_910ffef (eps : string) (s : dirmap) (f : form) : lin_result :=
   match lin_parts eps s f with
   | None => LUnsupported
   | Some [] => LEmptyReduce
   | Some parts => LOk parts
   end.
 
-(* NewtonIteration(form, u): lhs = linearize(form, u), rhs = LinearForm(tests, -form.expr) *)
-Definition model_newton (eps : string) (s : dirmap) (f : form) : lin_result * form :=
-  (model_linearize eps s f, map (fun re => (fst re, TOpp (snd re))) f).
+(* NewtonIteration(form, u): a = linearize(form, u); trials, tests = a.variables; rhs = LinearForm(tests, -form.expr).
+   The zero form is the number 0: no equation is built (today through AttributeError on `a.variables`). *)
+Inductive newton_result :=
+| NOk (lhs rhs : form)
+| NZeroFormNoEquation
+| NUnsupported.
+
+Definition model_newton (eps : string) (s : dirmap) (f : form) : newton_result :=
+  match model_linearize eps s f with
+  | LOk [] => NZeroFormNoEquation
+  | LOk parts => NOk parts (map (fun re => (fst re, TOpp (snd re))) f)
+  | _ => NUnsupported
+  end.
 
 (* the specification at form level: one Gateaux derivative per integral *)
 Fixpoint gateaux_form (s : dirmap) (f : form) : option form :=
